@@ -295,17 +295,61 @@ def qualified_import_scenario(rng, root):
             ['lint', s2, None, fn]]
 
 
+def evalweb_scenario(rng, root, partial_rvalues=None):
+    """a cached project module whose evaluation goes through instance attributes, factory functions,
+    recursive functions and attribute assignments with computed receivers (FuncScope.resolve,
+    ClassObject tables, SourceScope.assigns, MultiValue._rvalues, util.Partial)"""
+    t1, t2 = rng.sample(['Thing', 'Widget', 'Part', 'Gear'], 2)
+    m1, m2 = rng.sample(['foo', 'bar', 'spin', 'turn'], 2)
+    lines = ['class %s:' % t1, '    def %s(self):' % m1, '        pass', '    def %s(self):' % m2, '        pass',
+             'class Holder:', '    def __init__(self):', '        self.member = %s()' % t1,
+             'def make():', '    return Holder().member']
+    reqs_expr = [('assist', 'm.make().'), ('location', 'm.make().%s' % m1), ('assist', 'm.%s.' % t1), ('assist', 'm.Holder().')]
+    if rng.random() < 0.8:
+        lines += ['obj = make()', 'obj.attr = 1']
+        reqs_expr += [('assist', 'm.obj.')]
+    if rng.random() < 0.8:
+        lines += ['class Registry:', '    parent = None', "    kind = 'registry'", '    def __init__(self, parent=None):',
+                  '        self.parent = parent', '    def lookup(self, key):', '        pass',
+                  'class Entry:', '    value = None', '    def get(self):', '        return self.value',
+                  'def root_of(reg):', '    if reg.parent is None:', '        result = reg', '    else:',
+                  '        result = root_of(reg.parent)', '    return result',
+                  'default = root_of(Registry(Registry()))', "default.title = 'root'"]
+        reqs_expr += [('assist', 'm.Registry.'), ('assist', 'm.Entry.'), ('assist', 'm.Registry().'),
+                      ('location', 'm.Registry.lookup'), ('location', 'm.Entry().get'), ('assist', 'm.default.')]
+    if partial_rvalues or (partial_rvalues is None and rng.random() < 0.6):
+        # instance attributes defined through each other (a value first seen while the other is in progress)
+        lines += ['class C2:', '    dd = 1', 'class B2:', '    b = C2()', 'class A2:', '    def __init__(self):',
+                  '        self.x = self.y.a', '        self.x = B2()', '        self.y = self.x.b']
+        reqs_expr += [('assist', 'm.A2().x.'), ('assist', 'm.A2().y.')]
+    if rng.random() < 0.6:
+        lines += ['class %s(%s):' % (t2, t1), '    def extra(self):', '        return make()', 'spare = %s().extra()' % t2, 'spare.mark = 2']
+        reqs_expr += [('assist', 'm.%s().extra().' % t2), ('assist', 'm.spare.')]
+    open(os.path.join(root, 'm.py'), 'w').write('\n'.join(lines) + '\n')
+    fn = os.path.join(root, 'main.py')
+    reqs = []
+    for kind, expr in reqs_expr:
+        src = 'import m\n' + expr + '\n'
+        reqs.append([kind, src, [2, len(expr) if kind == 'assist' else len(expr) - 1], fn])
+    reqs.append(['lint', 'import m\nprint(m.make().%s)\n' % m1, None, fn])
+    return reqs
+
+
 def project_histories(ctx, nproj, nseq):
     """multi-module projects; the order of assist / location / lint requests on one long-lived
     Project is permuted and every answer compared with a fresh Project's"""
     bad = 0
     wpath = os.path.join(ctx.scratch, 'c04_api.py')
     open(wpath, 'w').write(API_WORK)
-    # open finding: re-run its concrete input; KNOWN-FINDING only if that input still fails
-    kf = os.path.join(common.VERIF, 'corpus', 'C04', 'known_%s.json' % KNOWN_STAR)
-    if os.path.exists(kf):
-        k = json.load(open(kf))
-        root = os.path.join(ctx.scratch, 'known_star')
+    # open findings: re-run their concrete inputs; KNOWN-FINDING only if that input still fails
+    kdir = os.path.join(common.VERIF, 'corpus', 'C04')
+    for kfn in sorted(os.listdir(kdir)) if os.path.isdir(kdir) else []:
+        if not (kfn.startswith('known_') and kfn.endswith('.json')):
+            continue
+        k = json.load(open(os.path.join(kdir, kfn)))
+        if 'files' not in k:
+            continue
+        root = os.path.join(ctx.scratch, kfn[:-5])
         os.makedirs(root)
         for name, content in k['files'].items():
             open(os.path.join(root, name), 'w').write(content)
@@ -316,8 +360,8 @@ def project_histories(ctx, nproj, nseq):
         if rc == 0:
             res = json.loads(out)
             if any(a != res['fresh'][i] for seq, ans in zip(k['sequences'], res['seq']) for i, a in zip(seq, ans)):
-                ctx.known_finding(KNOWN_STAR, 'ring of three star-importing project modules: completion after `cyca.` depends on which '
-                                  'module of the ring was asked about first (input: corpus/C04/known_%s.json)' % KNOWN_STAR)
+                ctx.known_finding(k['id'], 'star-import ring of project modules: the answer depends on which module of the ring '
+                                  'was loaded first on the Project (input: corpus/C04/%s)' % kfn)
     jobs = []
     cdir = os.path.join(common.VERIF, 'corpus', 'C04')
     for f in sorted(os.listdir(cdir)) if os.path.isdir(cdir) else []:
@@ -334,7 +378,8 @@ def project_histories(ctx, nproj, nseq):
             jobs.append(('corpus:' + f, 0, root, reqs, k['sequences'], jpath))
     for pi in range(nproj):
         for kind, gen in (('relimport', relimport_scenario), ('instance', instance_scenario),
-                          ('starcycle', starcycle_scenario), ('qualified', qualified_import_scenario)):
+                          ('starcycle', starcycle_scenario), ('qualified', qualified_import_scenario),
+                          ('evalweb', evalweb_scenario)):
             root = os.path.join(ctx.scratch, 'scen_%s%d' % (kind, pi))
             os.makedirs(root)
             reqs = gen(ctx.rng, root)
@@ -396,7 +441,7 @@ def run(ctx):
                 programs.append(('corpus/' + f, json.load(open(os.path.join(cdir, f)))['source']))
     for i, p in enumerate(fd.HAND_PROGRAMS):
         programs.append(('hand%d.py' % i, p))
-    for i in range(ctx.pick(60, 300)):
+    for i in range(ctx.pick(45, 300)):
         p, kinds = fd.gen_program(ctx.rng, size=ctx.rng.choice([5, 8, 12, 20]), allow_kw_star_walrus=True)
         for k, v in kinds.items():
             ctx.histogram('constructs', k, v)
